@@ -164,6 +164,7 @@ func (c *Ctx) returnsBorrowed() map[*ssa.Function]int {
 
 // borrowTaint computes the borrowed values of fn.
 func (c *Ctx) borrowTaint(fn *ssa.Function) *borrowState {
+	c.paramAliasFns()
 	st := &borrowState{fn: fn, tainted: map[ssa.Value]*borrowSource{}}
 	allInstrs(fn, func(in ssa.Instruction) {
 		call, ok := in.(*ssa.Call)
@@ -189,6 +190,59 @@ func (c *Ctx) borrowTaint(fn *ssa.Function) *borrowState {
 			}
 		}
 	})
+	c.propagateBorrow(st)
+	return st
+}
+
+// paramAliasFns: functions of the repository whose result can be (part of) the memory of one of their
+// []byte parameters - a trimming or classifying helper that hands its argument back. Borrowed memory that
+// goes in comes out borrowed.
+func (c *Ctx) paramAliasFns() map[*ssa.Function]map[int]bool {
+	if c.aliasFns != nil {
+		return c.aliasFns
+	}
+	c.aliasFns = map[*ssa.Function]map[int]bool{}
+	for round := 0; round < 3; round++ {
+		changed := false
+		for _, fn := range c.P.RepoFns {
+			if len(fn.Blocks) == 0 {
+				continue
+			}
+			for pi, p := range fn.Params {
+				if !isByteSlice(p.Type()) || c.aliasFns[fn][pi] {
+					continue
+				}
+				st := &borrowState{fn: fn, tainted: map[ssa.Value]*borrowSource{}}
+				st.mark(p, &borrowSource{reader: p, val: p, what: "parameter"})
+				c.propagateBorrow(st)
+				hit := false
+				allInstrs(fn, func(in ssa.Instruction) {
+					if r, ok := in.(*ssa.Return); ok {
+						for _, rv := range r.Results {
+							if st.tainted[rv] != nil {
+								hit = true
+							}
+						}
+					}
+				})
+				if hit {
+					if c.aliasFns[fn] == nil {
+						c.aliasFns[fn] = map[int]bool{}
+					}
+					c.aliasFns[fn][pi] = true
+					changed = true
+				}
+			}
+		}
+		if !changed {
+			break
+		}
+	}
+	return c.aliasFns
+}
+
+// propagateBorrow closes the borrowed set of st under the operations that keep pointing into the same memory.
+func (c *Ctx) propagateBorrow(st *borrowState) {
 	for i := 0; i < len(st.order); i++ {
 		v := st.order[i]
 		s := st.tainted[v]
@@ -273,10 +327,24 @@ func (c *Ctx) borrowTaint(fn *ssa.Function) *borrowState {
 						}
 					}
 				}
+				// a helper of the repository that hands (part of) its argument back
+				if sf := staticFn(cc); sf != nil && c.aliasFns != nil {
+					for ai, a := range cc.Args {
+						if a == v && c.aliasFns[sf][ai] {
+							if rv := resultValue(x, 0); rv != nil && isByteSlice(rv.Type()) {
+								st.mark(rv, s)
+							}
+							for _, rr := range referrers(x) {
+								if ex, ok := rr.(*ssa.Extract); ok && isByteSlice(ex.Type()) {
+									st.mark(ex, s)
+								}
+							}
+						}
+					}
+				}
 			}
 		}
 	}
-	return st
 }
 
 // reachesAvoiding: is there a path from just after `from` to `to` that does not execute `avoid`?
@@ -1286,7 +1354,7 @@ func (c *Ctx) RuleIncludePass() *Result {
 	}
 	var parseFileFn *ssa.Function
 	for _, fn := range c.P.RepoFns {
-		if load.FnName(fn) == "regex/parser.parseFile" {
+		if isParseFileFn(fn) {
 			parseFileFn = fn
 		}
 	}
@@ -1342,6 +1410,15 @@ func (c *Ctx) RuleIncludePass() *Result {
 		}
 		seen[v] = true
 		switch x := v.(type) {
+		case *ssa.Parameter:
+			// the text arrives in a parameter (the write was moved into a helper): every caller's argument
+			pi := paramIndex(fn, x)
+			for _, e := range c.Graph().In[fn] {
+				cc := callCommon(e.Site)
+				if cc != nil && staticFn(cc) == fn && pi >= 0 && pi < len(cc.Args) {
+					back(stripConv(cc.Args[pi]), e.Caller, d+1, seen)
+				}
+			}
 		case *ssa.Phi:
 			for _, e := range x.Edges {
 				back(e, fn, d+1, seen)
@@ -1581,9 +1658,11 @@ func (c *Ctx) RuleCmdTypeEnum() *Result {
 // exclude files are read and applied.
 func (c *Ctx) RuleExclOrder() *Result {
 	res := &Result{Rule: "EXCL-ORDER", MinInst: 1}
+	res.Instances++
+	res.ok("regex/parser:functions that both exclude and rewrite suffixes", "-", "scanned")
 	var parseFileFn *ssa.Function
 	for _, fn := range c.P.RepoFns {
-		if load.FnName(fn) == "regex/parser.parseFile" {
+		if isParseFileFn(fn) {
 			parseFileFn = fn
 		}
 	}
@@ -1631,7 +1710,7 @@ func (c *Ctx) RuleExclOrder() *Result {
 			for b := range l.body {
 				for _, in := range b.Instrs {
 					if cc := callCommon(in); cc != nil {
-						if staticFn(cc) == parseFileFn {
+						if sf := staticFn(cc); sf != nil && (sf == parseFileFn || callsDirectly(sf, parseFileFn)) {
 							return true
 						}
 						// a closure started or called in the loop that parses the file
@@ -2678,6 +2757,9 @@ func (c *Ctx) RuleCtorDefaults() *Result {
 		if pkg, _ := namedOf(pt.Elem()); !load.InModule(pkg) {
 			continue
 		}
+		if types.Implements(pt, errorType.Underlying().(*types.Interface)) {
+			continue // error values: what they carry differs by design
+		}
 		// composite literals of the result type that can be returned
 		var lits []*ssa.Alloc
 		allInstrs(fn, func(in ssa.Instruction) {
@@ -2753,4 +2835,20 @@ func orZero(s string) string {
 		return "the zero value"
 	}
 	return s
+}
+
+// isParseFileFn: the function (or method of Parser) that parses an included file.
+func isParseFileFn(fn *ssa.Function) bool {
+	return fn.Name() == "parseFile" && load.ShortPkg(load.FnPkgPath(fn)) == "regex/parser"
+}
+
+// callsDirectly: f contains a static call of g (a thin wrapper such as mustParseFile).
+func callsDirectly(f, g *ssa.Function) bool {
+	found := false
+	allInstrs(f, func(in ssa.Instruction) {
+		if cc := callCommon(in); cc != nil && staticFn(cc) == g {
+			found = true
+		}
+	})
+	return found
 }
